@@ -1,1 +1,12 @@
-fn main() { eprintln!("engine not built yet"); std::process::exit(2); }
+//! clusterx — checks that need the real cluster actors in one process (C07, C08, C09, C12, C22).
+mod c08;
+mod cx;
+
+fn main() {
+    vcommon::install_quiet_panic_hook();
+    let args = vcommon::parse_args();
+    match args.property.as_str() {
+        "C08" => c08::run(args),
+        p => vcommon::machinery_fail(&format!("clusterx does not serve property {p} (yet)")),
+    }
+}
